@@ -932,3 +932,115 @@ def _pair_virtual(shape, vp, t):
             out.append((vp[k], t[k]))
             k += 1
     return out
+
+
+# ------------------------------------------------------------------------------------------------
+# C14: one domain (classes, methods, free-function definitions) instantiated for several policies
+
+def prog_policy_template(reg, rng, npol=3, max_calls=60):
+    """a program whose classes, methods (`method<Key, Sig, Policy>`) and definitions (free functions registered with
+    `add_function`) are written once, as templates over the policy, and installed for several policies obtained by
+    rebind - one after the other, with updates and call sweeps of every installed policy in between. The same key,
+    the same signature and the same functions serve all policies. Returns (source, oracle script of one sweep,
+    number of sweeps): every sweep must print what the oracle says for the registry."""
+    import gen
+    import itertools
+    n = len(reg.parents)
+    anc = gen.ancestors(reg.parents)
+    desc = gen.descendants(reg.parents)
+    ids = [1000 + i for i in range(n)]
+    concrete = [i for i in range(n) if not reg.abstract[i]]
+    cls = []
+    for i in range(n):
+        bases = ", ".join("virtual K%d" % b for b in reg.parents[i])
+        body = ["virtual ~K%d() {}" % i] if not reg.parents[i] else []
+        if reg.abstract[i]:
+            body.append("virtual void abs%d() = 0;" % i)
+        for a in sorted(anc[i]):
+            if reg.abstract[a]:
+                body.append("void abs%d() override {}" % a)
+        cls.append("struct K%d%s { %s };" % (i, (" : " + bases) if bases else "", " ".join(body)))
+    script = ["class %d %d %d %s" % (i + 1, ids[i], 1 if reg.abstract[i] else 0, " ".join(str(ids[c]) for c in [i] + sorted(anc[i]))) for i in range(n)]
+    keys, aliases, fns, members, calls = [], [], [], [], []
+    for m in reg.methods:
+        vps = iter(m["vp"])
+        params = [("int" if ch == "N" else "virtual_<K%d&>" % next(vps)) for ch in m["shape"]]
+        keys.append("struct key%d;" % m["key"])
+        aliases.append("template<class P> using M%d = method<key%d, int(%s), P>;" % (m["key"], m["key"], ", ".join(params)))
+        script.append("method %d %s %s" % (m["key"], m["shape"].replace("P", "V"), " ".join(str(ids[c]) for c in m["vp"])))
+        for d, vp in m["defs"]:
+            it = iter(vp)
+            ps = [("int" if ch == "N" else "K%d&" % next(it)) for ch in m["shape"]]
+            fns.append("int d%d(%s) { return %d; }" % (d, ", ".join(ps), d))
+            members.append("    typename M%d<P>::template add_function<d%d> r%d;" % (m["key"], d, d))
+            script.append("def %d %d %s" % (m["key"], d, " ".join(str(ids[c]) for c in vp)))
+    script.append("update")
+    for m in reg.methods:
+        doms = [[c for c in desc[v] if c in concrete] for v in m["vp"]]
+        if any(not d_ for d_ in doms):
+            continue
+        total = 1
+        for d_ in doms:
+            total *= len(d_)
+        tuples = list(itertools.product(*doms)) if total <= max_calls else [tuple(rng.choice(d_) for d_ in doms) for _ in range(max_calls)]
+        for t in tuples:
+            args = [("7" if ch == "N" else "static_cast<K%d&>(o%d)" % (v, c)) for ch, (v, c) in zip(m["shape"], _pair_virtual(m["shape"], m["vp"], t))]
+            calls.append("    run([&] { return M%d<P>::fn(%s); });" % (m["key"], ", ".join(args)))
+            script.append("call %d %s" % (m["key"], " ".join(str(ids[c]) for c in t)))
+    pols = ["Pol%d" % k for k in range(npol)]
+    body, sweeps = [], 0
+    for k, p in enumerate(pols):
+        body.append("    static Install<%s> install%d; setup<%s>();" % (p, k, p))
+        # after installing policy k, update it and sweep every policy installed so far (the earlier ones again)
+        body.append("    update<%s>();" % p)
+        for q in pols[:k + 1]:
+            body.append("    sweep<%s>();" % q)
+            sweeps += 1
+    # finally update the first policy again and sweep all
+    body.append("    update<%s>();" % pols[0])
+    for q in pols:
+        body.append("    sweep<%s>();" % q)
+        sweeps += 1
+    src = r'''
+#include <yorel/yomm2/core.hpp>
+#include <cstdio>
+#include <map>
+#include <typeinfo>
+using namespace yorel::yomm2;
+%(classes)s
+%(pols)s
+%(keys)s
+%(aliases)s
+%(fns)s
+template<class P> struct Install {
+    use_classes<%(allk)s, P> classes;
+%(members)s
+};
+%(objects)s
+static std::map<type_id, int> idof;
+template<class F> static void run(F f) {
+    try { std::printf("ran %%d\n", f()); }
+    catch (const resolution_error& e) {
+        std::printf("raised resolution status=%%s arity=%%d types=[", e.status == resolution_error::no_definition ? "ni" : "amb", (int)e.arity);
+        for (std::size_t i = 0; i < e.arity; ++i) std::printf(i ? ",%%d" : "%%d", idof.count(e.types[i]) ? idof[e.types[i]] : -1);
+        std::printf("]\n");
+    }
+}
+template<class P> static void setup() {
+    P::error = [](const error_type& e) { if (auto r = std::get_if<resolution_error>(&e)) throw *r; };
+}
+template<class P> static void sweep() {
+    std::printf("update ok\n");
+%(calls)s
+}
+int main() {
+%(idmap)s
+%(body)s
+    return 0;
+}
+''' % {"classes": "\n".join(cls), "pols": "\n".join("struct %s : default_policy::rebind<%s> {};" % (p, p) for p in pols),
+       "keys": "\n".join(keys), "aliases": "\n".join(aliases), "fns": "\n".join(fns), "allk": ", ".join("K%d" % i for i in range(n)),
+       "members": "\n".join(members), "objects": "\n".join("static K%d o%d;" % (c, c) for c in concrete),
+       "idmap": "\n".join("    idof[(type_id)&typeid(K%d)] = %d;" % (i, ids[i]) for i in range(n)),
+       "calls": "\n".join(calls), "body": "\n".join(body)}
+    return src, script, sweeps
